@@ -92,3 +92,13 @@ Definition compile_image (P : decl_package) : image :=
      im_roots := [] |}.
 
 End Compile.
+
+(* ---------- a topic as the j5s source declares it ---------------------------------------------------
+   sourcewalk/topic.go acceptTopic: the service is ToCamel(topic name) ++ "Topic"; a method is named after its
+   message, a single unnamed message after the topic (the name as written, NOT camel-cased), and takes
+   <method name>Message.  to_camel: the model of strcase.ToCamel (lib/Strcase.v) at the use site. *)
+Record src_topic := { st_name : str; st_named : list str }.
+
+Definition topic_of_source (to_camel : str -> str) (t : src_topic) : decl_topic :=
+  {| dt_name := to_camel (st_name t);
+     dt_msgs := match st_named t with [] => [st_name t] | l => l end |}.
